@@ -27,7 +27,7 @@ func init() {
 		Assumptions: []string{"ECDSA recovery (go-ethereum) and SSZ hash-tree-root (fastssz) are trusted primitives used by the reference as well"},
 		Real:        []string{"gnosis.DecryptionKeysHandler / ValidateDecryptionKeysSignatures", "shutterservice.DecryptionKeysHandler", "gnosisaccessnode.DecryptionKeysHandler", "epochkghandler.DecryptionKeyHandler", "flavour middleware", "p2p validators"},
 		Stub:        []string{"libp2p (simnet)", "PostgreSQL (pgsim)", "DKG (trusted dealer)"},
-		QuickRuns:   400, ThoroughRuns: 40000, QuickMinimize: 60, ThoroughMinimize: 300,
+		QuickRuns:   1500, ThoroughRuns: 40000, QuickMinimize: 60, ThoroughMinimize: 300,
 	})
 }
 
